@@ -36,6 +36,7 @@ WHAT = {
     "P7": "a doc-string ends only at the delimiter that opened it; the lines in between are its text minus the opening indent",
     "P8": "table cells with pipes survive render (escape_cell) -> parse (split on unescaped pipes, unescape)",
     "P9": "tag lines are read word by word: '@word' -> tag 'word' (any characters), '#word' starts a comment, anything else is a ParserError",
+    "P10": "every parse_* entry point can return a model for some text (it is not dead)",
     "E4": "every ParserError raised by the parser carries the current line",
     "E6": "parser terminates: no while loop; only call cycle is action_table <-> action_steps",
 }
@@ -343,6 +344,31 @@ def check_cell_roundtrip(chk, ix):
             chk.fail(Finding("P8", esc.fullname, "%r -> %r -> %r" % (cells, line, parsed),
                              "the cells %r are rendered as the row %r, which parses back as %r: the renderer's escaping and the parser's "
                              "splitting on unescaped pipes disagree" % (cells, line, parsed), file=esc.file, line=esc.lineno, stmt="def escape_cell"))
+
+
+def check_entry_can_succeed(chk, ix, entries=("parse_feature", "parse_rule", "parse_scenario", "parse_steps")):
+    """P10: every parse_* entry point has a line sequence on which it returns a model: the machine exploration of the
+    entry must have at least one returning exit (otherwise no text whatsoever can be parsed through it)."""
+    chk.rule("P10", WHAT["P10"])
+    classes = [c for c in PM.LINE_CLASSES if c not in ("STEP_THEN", "STEP_BUT", "DOC_SQ", "STEP_WHEN", "STEP_STAR", "LANG_UNKNOWN")]
+    for entry in entries:
+        it, outs, _ = explore_entry(ix, entry, classes, track_p2=False)
+        chk.absorb(it)
+        chk.instance("P10")
+        func = ix.func(PM.ENTRY_POINTS[entry][0])
+        returning = [o for o in outs if o[1] != "raise"]
+        # a returning exit that consumed at least one keyword / step line
+        kinds = {"parse_feature": ("Feature",), "parse_rule": ("Rule",), "parse_scenario": ("Scenario", "ScenarioOutline"), "parse_steps": ("list",)}[entry]
+        useful = [o for o in returning if isinstance(o[2], Ref) and (o[0].obj(o[2]).clsname() in kinds or o[0].obj(o[2]).kind in kinds)]
+        if useful:
+            chk.ok("P10", {"entry": entry, "returning exits": len(returning), "after consuming input": len(useful)}, nontrivial_key=entry)
+        else:
+            errs = sorted({norm_origin(ix, o[2].origin) for o in outs if o[1] == "raise"})[:3]
+            others = sorted({o[0].obj(o[2]).clsname() or o[0].obj(o[2]).kind for o in returning if isinstance(o[2], Ref)})
+            chk.fail(Finding("P10", func.fullname, "%s never returns a %s" % (entry, "/".join(kinds)),
+                             "%s cannot succeed: no line sequence makes it return a %s (returning exits yield %s; a %s keyword line ends in: %s)" % (
+                                 entry, "/".join(kinds), others or "nothing", kinds[0], "; ".join(errs)),
+                             file=func.file, line=func.lineno, stmt="def " + func.name))
 
 
 def check_tag_line(chk, ix, tier="quick"):
